@@ -4,6 +4,7 @@
 
 pub mod alloc_spy;
 pub mod devsim;
+pub mod drivers;
 pub mod evlog;
 pub mod hooks;
 pub mod json;
